@@ -90,6 +90,8 @@ let () =
          match line.[0] with
          | 'H' -> tree := E; Hashtbl.reset last; Buffer.add_string buf line; Buffer.add_char buf '\n'
          | 'I' -> Scanf.sscanf (String.sub line 1 (String.length line - 1)) " %d %d" (fun a b -> apply (Ins (z_of_int b, z_of_int a)) 'i')
+         | 'J' -> (* the resident node object offered again: for the model an insert of a present key *)
+           Scanf.sscanf (String.sub line 1 (String.length line - 1)) " %d %d" (fun a b -> apply (Ins (z_of_int b, z_of_int a)) 'i')
          | 'R' -> Scanf.sscanf (String.sub line 1 (String.length line - 1)) " %d" (fun a -> apply (Rem (z_of_int a)) 'r')
          | 'S' -> Scanf.sscanf (String.sub line 1 (String.length line - 1)) " %d" (fun a -> apply (Find (z_of_int a)) 's')
          | '#' -> ()
